@@ -8,7 +8,7 @@
    invariant, is: whenever none of the six mechanisms fires, the answer is the plain parser's. *)
 From Coq Require Import List Bool ZArith NArith Arith.
 From PP Require Import Model.Str Model.Results Model.Prog Model.Core Model.Entry Model.LR Model.LRT.
-From PP Require Import Proofs.LRProofs.
+From PP Require Import Proofs.LRProofs Proofs.LRTie.
 Import ListNotations.
 
 (* 1. erasure: the instrumented handler computes exactly the outcome and the memo of Model/LR.v's handler *)
@@ -203,3 +203,8 @@ Proof.
   intros cap [<-|[<-|[]]]; vm_compute; do 4 eexists; (split; [reflexivity|]); (split; [reflexivity|]);
     (split; [discriminate|reflexivity]).
 Qed.
+
+(* the tie to the source: Model/LR.v transcribes the text of pyparsing/util.py (LRUMemo, UnboundedMemo), of the bounded-recursion
+   block of Forward.parseImpl and of reset_cache quoted in Proofs/LRTie.v; Gen/GenMemo.v is regenerated from /repo on every run *)
+Theorem C03_source_pinned : lr_source_text.
+Proof. exact lr_source_pinned. Qed.
